@@ -127,6 +127,7 @@ def gen_case(rng, n_ops, change_ops=True):
         direct = [c["nodes"][n[2]][1] for n in c["nodes"]
                   if n[0] == "un" and n[1] in restricted and c["nodes"][n[2]][0] == "var"]
         c["wide"] = None
+        direct = [i for i in direct if unbits(c["vals"][i]) != 0.0]
         if direct and rng.random() < 0.6:
             i = rng.choice(direct)
             c["errs"][i] = bits(abs(unbits(c["vals"][i])) * rng.uniform(0.45, 0.8))
